@@ -1,0 +1,19 @@
+//go:build verif
+
+// Exports of unexported parser internals for the verification harness in /verif.
+// Compiled only with the build tag `verif`; add-only, changes no behaviour.
+package parser
+
+import (
+	"github.com/DDP-Projekt/Kompilierer/src/ast"
+	"github.com/DDP-Projekt/Kompilierer/src/token"
+)
+
+// VerifTokenEqual exposes the key equality used by the alias trie.
+func VerifTokenEqual(t1, t2 *token.Token) bool { return tokenEqual(t1, t2) }
+
+// VerifTokenLess exposes the key ordering used by the alias trie.
+func VerifTokenLess(t1, t2 *token.Token) bool { return tokenLess(t1, t2) }
+
+// VerifSortAliases exposes the candidate ordering of alias matching.
+func VerifSortAliases(matchedAliases []ast.Alias) { sortAliases(matchedAliases) }
